@@ -96,7 +96,7 @@ def code_to_spec(rep: Report, env, conf, calls, what, module='PureTrace', hashse
 
 # =========================================================================== C01
 def check_C01(tier):
-    rep = Report('C01', tier)
+    rep = Report.get('C01', tier)
     env = Env()
     conf = extract_conf(env)
     calls = spec_to_code(rep, env, conf, 'MC_C01', 'MC_C01_%s.cfg' % tier, 'family of strings (bases x edits)')
@@ -107,7 +107,7 @@ def check_C01(tier):
     rep.guard(any('untyped' in t for t in rep.cover) or not calls, 'no untyped result exercised')
     rep.assumptions = ['Accept relation = re.fullmatch(pattern, token) over the extracted vocabulary',
                        'family: every template x first PickN values per placeholder x <= MaxEdits edits (see spec/MC_C01*.cfg)']
-    return rep.finish()
+    return rep.done()
 
 
 REGISTRY = {k[6:]: v for k, v in list(globals().items()) if k.startswith('check_')}
@@ -139,4 +139,4 @@ def replay(pid, path):
         return 2
     conf = extract_conf(env, extra_tokens=[t for t in tokens_of(calls) if '/' not in t and len(t) < 40])
     code_to_spec(rep, env, conf, calls, 'replay of %s' % path)
-    return rep.finish()
+    return rep.done()
